@@ -229,6 +229,14 @@ def loop_body(fn, next_bb):
             continue
         if call_matches(t, ['alloc::vec::Vec::new', 'alloc::vec::Vec::with_capacity', 'alloc::string::String::new']):
             continue  # a fresh per-item buffer
+        if name in ('collect', 'map', 'cloned', 'copied') and t.get('args'):
+            # an iterator chain over ONE item's own values (`values.iter().map(..).collect()`): the iterator is made inside the loop body
+            ADAPT = [('core::iter::traits::iterator::Iterator::map', 0), ('core::iter::traits::iterator::Iterator::cloned', 0),
+                     ('core::iter::traits::iterator::Iterator::copied', 0)]
+            src = origins(fn, t['args'][0], extra_identity=ADAPT)
+            if src and all(o.kind == 'call' and last_seg(o.term.get('callee') or '') in ('iter', 'into_iter', 'iter_mut', 'values', 'keys', 'chars', 'bytes') and o.bb in body
+                           for o in src):
+                continue
         if any(m in ('format', 'format_args') for m in (t.get('x') or [])):
             continue  # building a string from one item
         if name in LOOP_LOOKUP_OK:
